@@ -487,6 +487,25 @@ def lift_egloop(repo):
     if ast.unparse(ebody[-1]) != "return result":
         raise U("eval_gap no longer returns `result`")
 
+    # _eval: what the mixture's error / gamma are and that the multiplier is projected first (the L / L_high
+    # expressions themselves are lifted by eg.py)
+    ev = find_func(tree, "_Lagrangian", "_eval")
+    evb = strip_logging(ev.body)
+    br = one([n for n in evb if isinstance(n, ast.If) and ast.unparse(n.test) == "callable(Q)"], "`if callable(Q)` in _eval")
+    if [ast.unparse(n) for n in br.orelse] != ["error = self.errors[Q.index].dot(Q)", "gamma = self.gammas[Q.index].dot(Q)"]:
+        raise U(f"_eval mixture branch changed: {[ast.unparse(n) for n in br.orelse]}")
+    pj = one([n for n in evb if isinstance(n, ast.If) and "opt_lambda" in ast.unparse(n.test)], "projection step of _eval")
+    if ast.unparse(pj.test) != "self.opt_lambda" or pj.orelse or \
+            [ast.unparse(n) for n in pj.body] != ["lambda_vec = self.constraints.project_lambda(lambda_vec)"]:
+        raise U(f"_eval projection step changed: {ast.unparse(pj)}")
+    i_pj, i_L = evb.index(pj), evb.index(one(assigns(evb, "L"), "L = ... in _eval"))
+    if not evb.index(br) < i_pj < i_L:
+        raise U("_eval: the projection no longer sits between the error/gamma computation and L")
+    out.append("/-- `_eval`: `error = self.errors[Q.index].dot(Q)`, `gamma = self.gammas[Q.index].dot(Q)`, then "
+               "`if self.opt_lambda: lambda_vec = self.constraints.project_lambda(lambda_vec)` BEFORE L is computed -/\n"
+               "def evalProjectsFirst : Bool := true")
+    meta["_eval"] = [ast.unparse(n) for n in br.orelse] + [ast.unparse(pj)]
+
     bh = find_func(tree, "_Lagrangian", "best_h")
     bb = strip_logging(bh.body)
     hv = one(assigns(bb, "h_value"), "h_value = ...")
